@@ -4,7 +4,7 @@ M1 — model of `rpft.parsers.common.cellparser.CellParser`
 `split_by_separator` 66-89, `join_from_lists` 135-159).
 
 Core Lean only (imported by the executable driver).  The constants (`|`, `;`, `\`,
-U+0001) are checked against the source on every run by the table extractor
+and the shape of the unescape pattern) are checked against the source on every run by the table extractor
 (`Rpft/Gen/Tables.lean`, theorem `Props.C08.tables_agree`).
 -/
 import Rpft.Str
@@ -14,7 +14,6 @@ open Rpft
 def sep0 : Char := '|'
 def sep1 : Char := ';'
 def escC : Char := '\\'
-def tmpC : Char := Char.ofNat 1
 
 /-- `CellParser.escape_string`: three sequential `str.replace` passes, as written. -/
 def escapeString (s : Str) : Str :=
@@ -25,11 +24,15 @@ def escChar (c : Char) : Str :=
   if c = escC ∨ c = sep0 ∨ c = sep1 then [escC, c] else [c]
 def esc (s : Str) : Str := s.flatMap escChar
 
-/-- Unescape part of `cleanse` (after `strip`): four `str.replace` passes through the
-temporary character U+0001. -/
-def unescape (s : Str) : Str :=
-  replace1 tmpC [escC]
-    (replace2 escC sep1 [sep1] (replace2 escC sep0 [sep0] (replace2 escC escC [tmpC] s)))
+/-- Unescape part of `cleanse` (after `strip`): one left-to-right pass (`re.sub`): an escape
+character followed by an escape character or a separator stands for that character; any
+other character — including a lone or trailing escape character — is kept. -/
+def unescape : Str → Str
+  | [] => []
+  | [c] => [c]
+  | c :: d :: rest =>
+    if c = escC ∧ (d = escC ∨ d = sep0 ∨ d = sep1) then d :: unescape rest
+    else c :: unescape (d :: rest)
 
 def cleanseStr (ws : Char → Bool) (s : Str) : Str := unescape (strip ws s)
 
